@@ -144,9 +144,24 @@ def tlc_export_exec(ctx, bins, cfg, events_path, timeout, label):
     return res, nev, None
 
 
+def long_code_bytes(n=4):
+    """The byte values with the longest code words of spec/huffman/HuffTable.tla (anti-compressible content)."""
+    try:
+        s = open(os.path.join(core.SPEC, "huffman", "HuffTable.tla")).read()
+        codes = re.findall(r"<<([01, ]+)>>", s[s.index("Code == <<") + 10:])
+        lens = sorted(((len(c.split(",")), b) for b, c in enumerate(codes[:256])), reverse=True)
+        return [b for _, b in lens[:n]]
+    except Exception:
+        return []
+
+
 def drive(bins, seed, tier, parts, events_path, timeout=600):
+    env = dict(os.environ)
+    lc = long_code_bytes()
+    if lc:
+        env["VH_LONGCODES"] = ",".join(str(b) for b in lc)
     r = subprocess.run([bins + "/vh-wire", "drive", str(seed), tier, parts, events_path], stdout=subprocess.PIPE,
-                       stderr=subprocess.PIPE, text=True, timeout=timeout)
+                       stderr=subprocess.PIPE, text=True, timeout=timeout, env=env)
     hang = [l for l in r.stdout.splitlines() if l.startswith("HANG ")]
     m = re.search(r"EVENTS (\d+) PANICS (\d+)", r.stdout)
     nev = int(m.group(1)) if m else 0
@@ -427,7 +442,7 @@ def deep_model(ctx, pid, parallel=8, timeout=3000):
                          _cfg(ctx, "MC_deep_hf_%d.cfg" % lo, "deep", ["hf"], lo, lo + 255)))
         jobs.append(("header byte patterns (deep boundary sets), packets", _cfg(ctx, "MC_deep_hb.cfg", "deep", ["hb", "rt"], 0, 1023)))
     else:
-        for fam in ("short6", "short7", "cor6", "cor7", "heur6", "comp6", "comp7"):
+        for fam in ("short6", "short7", "cor6", "cor7", "heur6", "comp6", "comp7", "max6", "max7"):
             jobs.append(("reader totality / re-read law on the model: %s (deep)" % fam,
                          _cfg(ctx, "MC_deep_%s.cfg" % fam, "deep", [fam], 0, 1023)))
     import concurrent.futures as cf
